@@ -106,6 +106,8 @@ class Gen:
             body = self.block(depth - 1, held)
             catch = rng.choice(cfg.get("catches", ["cancel", "cancel", "base", "exception", "never"]))
             handler = [("do", self.log())]
+            if rng.random() < 0.5:
+                handler.append(("logexc",))
             if rng.random() < 0.4:
                 handler.append(("do", ["sleep0"]))
                 handler.append(("do", self.log()))
@@ -126,6 +128,8 @@ class Gen:
             return [("do", ["callpos", rng.randrange(3), 100 + rng.randrange(50)])]
         if k == "setprio" and self.cur == "prio":
             return [("do", ["setprio", list(rng.choice(PRIOS))])]
+        if k == "query":
+            return [("do", ["query"] if rng.random() < 0.6 else ["callsoonquery"])]
         if k == "raise":
             return [("raise", list(rng.choice([["user", 1], ["base", 1]])))]
         if k == "spawn" and depth > 0:
@@ -167,6 +171,8 @@ def build(stmts, rest=None):
             s = ["raise", st[1]]
         elif k == "reraise":
             s = ["reraise"]
+        elif k == "logexc":
+            s = ["logexc", s]
         elif k == "ret":
             s = ["ret", st[1]]
     return s
@@ -233,7 +239,7 @@ FULL = {
     "ops": {"log": 3, "sleep0": 4, "sleep": 1, "eventwait": 2, "eventset": 1, "awaitfut": 1, "setresult": 0.5,
             "awaittask": 1, "cancel": 0.7, "throw": 0.7, "interrupt": 0.7, "section": 3, "condwait": 1.5,
             "notify": 1.5, "try": 2, "timeout": 1, "sleepinsert": 0.5, "switch": 0.5, "callsoon": 0.3,
-            "callpos": 0.3, "setprio": 0.3, "raise": 0.3, "spawn": 0.7, "acquire": 0.2, "release": 0.2},
+            "callpos": 0.3, "setprio": 0.3, "query": 0.7, "raise": 0.3, "spawn": 0.7, "acquire": 0.2, "release": 0.2},
     "env": {"step": 12, "advance": 1.5, "cancel": 1, "throw": 1, "eventset": 1, "setresult": 0.7,
             "setexc": 0.3, "futcancel": 0.3, "spawn": 0.3, "callsoon": 0.2},
     "nacts": (8, 40), "nworkers": (2, 4), "depth": 2,
